@@ -118,7 +118,7 @@ Definition diag (c : case) : option N :=
   end.
 
 (* steps at which the implementation's environment broke the assumption of the theorems ([step_ok]), by class:
-   a = a Subscribe on a service-health topic (0, 1) whose query index is behind a commit of its subject
+   a = a Subscribe on the connect health topic (1) whose query index is behind a commit of its subject
        (the recorded finding query-index-behind-content);
    r = a commit whose raft index is not above the previous one (or is 1);
    x = anything else (query index ahead of the raft index, an understated index on another topic, a
@@ -128,7 +128,7 @@ Definition break_class (st : state) (lb : label) : N :=
   else match lb with
        | LCommit _ => 2
        | LSubscribe c T _ _ qidx =>
-           if N.ltb (fst (sub_ts st c T)) 2 && N.leb qidx (st_hi st) then 1 else 3
+           if N.eqb (fst (sub_ts st c T)) 1 && N.leb qidx (st_hi st) then 1 else 3
        | _ => 3
        end%N.
 
